@@ -37,8 +37,9 @@ NOT_DECIDED = [
     "group means: non-emptiness of every returned group is part of the assumed groupby contract",
     "default wave-vector set: the float test `modf(sqrt(k))[0] == 0` is taken as 'k is a perfect square' (exact for k < 2**52; assumed, see "
     "TRUSTED); onlypositive='z' with ndim=2 and non-bool/str options are not specified by the documentation and not checked",
-    "sum rule N S = sum_a N_a S_aa + 2 sum_{a<b} sqrt(N_a N_b) S_ab on the returned (rounded, |q|-averaged) numbers: proved only as the "
-    "per-frame identity and induction-step lemmas on the spec terms (holds before rounding by the modes+normalisation clauses)",
+    "sum rule N S = sum_a N_a S_aa + 2 sum_{a<b} sqrt(N_a N_b) S_ab on the ROUNDED, |q|-averaged numbers of the returned table: it holds "
+    "exactly (over the reals) for the unrounded per-vector values the code computes (= the numbers of _qvectors.csv; clauses sum-rule:*), "
+    "on the returned table only up to the 1e-6 rounding of every per-vector value (error bound not chained through the symbolic group mean)",
     "AssertionError of sq.__init__ when particle number or box change between frames (the symbolic trajectory has them constant)",
 ]
 TRUSTED = [
@@ -46,8 +47,9 @@ TRUSTED = [
     "join, round(6) = element-wise round6, groupby(key).mean().reset_index() = one row per distinct key with the group mean of every other "
     "column (every group non-empty), to_csv = write event",
     "exp(-i x) = cos x - i sin x with the parity normal forms cos(-x) = cos x, sin(-x) = -sin x (pyvc/sv.py), np.linalg.norm, math.sqrt",
-    "Sigma unfold/extensionality axioms (pyvc/axioms.py); induction over the frame / particle number for the sum-rule and sign lemmas "
-    "is by explicit base and step obligations",
+    "Sigma unfold/extensionality axioms (pyvc/axioms.py); induction over the frame / particle number for the sum-rule and sign clauses "
+    "is by explicit step obligations on the real terms (base: empty sums), the induction principle itself is trusted; the ring normaliser "
+    "applies the conclusions (rho = sum_a rho_a, raw_S = sum raw_aa + 2 sum raw_ab) as rewrites",
     "loop rule of pyvc/loops.py: joined body branches (if/elif routing by type) and numeric accumulators promoted to arrays by the first "
     "iteration are summarised as sums, checked by loop-init (after the first iteration) and loop-step obligations",
     "the object invariant established by sq.__init__ (own unit) is the methods' precondition",
@@ -208,7 +210,11 @@ class Method(Unit):
         inp["s0"] = ctx.int("s0")
         inp["kf"] = ctx.int("kf")
         inp["kv"] = ctx.int("kv")
+        inp["kp"] = ctx.int("kp")
         return [o], {}, inp
+
+    SUMRULE = ["sum-rule:rho=sum_a-rho_a:induction-step(particles)", "sum-rule:per-frame-identity", "sum-rule:raw:induction-step(frames)",
+               "sum-rule:per-vector-values(unrounded)"]
 
     def clause_names(self, case):
         names = ["columns", "q:key=round6|2pi n/L|", "q:returned=key", "file=returned", "qvectors-file=per-vector-values"]
@@ -217,6 +223,8 @@ class Method(Unit):
             if ab is None or ab[0] == ab[1]:
                 names += [f"{name}:per-vector-value>=0", f"{name}:raw>=0:induction-step(frames)", f"{name}:returned>=0:induction-step(vectors)",
                           f"{name}:returned>=0"]
+        if self.K >= 2:
+            names += self.SUMRULE
         return names
 
     def ensures(self, ctx, case, inp, out):
@@ -269,6 +277,12 @@ class Method(Unit):
             yield f"{name}:group-mean", sv.implies(ing, sv.cmp("==", c[name].get((g,)), sv.div(num, den))), {"ring_only": True}
             if ab is None or ab[0] == ab[1]:
                 yield from self.sign_goals(inp, name, ab, gb, kg, num, den, c[name].get((g,)), ing, inm)
+        if K >= 2:
+            if all(nm in pervec for nm, _ in cols):
+                yield from self.sumrule_goals(inp, cols, pervec, inm)
+            else:
+                for nm in self.SUMRULE:
+                    yield nm, False
         # files
         writes = [e for e in out.state.trace if e[0] == "to_csv"]
         wq = [e for e in writes if e[1] == "out_qvectors.csv"]
@@ -317,6 +331,44 @@ class Method(Unit):
                        sv.cmp(">=", numk(sv.add(kv, 1)), 0)), {"solver_opts": {"ext": False}}
         gm, _ = sv.generalize(sv.implies(sv.and_(ing, sv.cmp(">=", num, 0), sv.cmp(">=", den, 1)), sv.cmp(">=", returned, 0)), [num, den], "nd")
         yield f"{name}:returned>=0", gm
+
+    def sumrule_goals(self, inp, cols, pervec, inm):
+        """N S = sum_a N_a S_aa + 2 sum_{a<b} sqrt(N_a N_b) S_ab on the UNROUNDED per-vector values the code computes (the numbers of
+        `_qvectors.csv`), chained to the code's own terms:
+        (A) rho(s,m) = sum_a rho_a(s,m) by induction over the particles (step obligation; base: empty sums; a particle of type t in 1..K
+            contributes to exactly one species mode);
+        (B) per frame |rho|^2 = sum_a |rho_a|^2 + 2 sum_{a<b} Re[rho_a conj rho_b]  (ring identity after rewriting rho by (A));
+        (C) raw_S = sum_a raw_aa + 2 sum_{a<b} raw_ab by induction over the frames (step obligation with (B) at the new frame);
+        (D) with the modes clauses (the code's sums are the raw_X) and the code's normalisations: the sum rule on the per-vector values
+            (ring identity after rewriting the code's total sum by (C)).
+        The induction principle over the particle / frame number is trusted."""
+        sp, m, T, N, K, s0, kf, kp = inp["sp"], inp["m"], inp["T"], inp["N"], self.K, inp["s0"], inp["kf"], inp["kp"]
+        ins = sv.and_(inm, sv.cmp(">=", s0, 0), sv.cmp("<", s0, T))
+        sp_ab = [(a, a) for a in range(1, K + 1)] + [(a, b) for a in range(1, K + 1) for b in range(a + 1, K + 1)]
+        w = lambda ab: 1 if ab[0] == ab[1] else 2
+
+        def split(n):
+            tot = sp.rho(None, s0, m, n=n)
+            parts = [sp.rho(a, s0, m, n=n) for a in range(1, K + 1)]
+            return sv.and_(sv.cmp("==", tot.re, _sum([p_.re for p_ in parts])), sv.cmp("==", tot.im, _sum([p_.im for p_ in parts])))
+        yield self.SUMRULE[0], sv.implies(sv.and_(ins, sv.cmp(">=", kp, 0), sv.cmp("<", kp, N), split(kp)), split(sv.add(kp, 1))), \
+            {"solver_opts": {"ext": False}}
+        tot = sp.rho(None, s0, m)
+        parts = [sp.rho(a, s0, m) for a in range(1, K + 1)]
+        ident = sv.cmp("==", sp.frame_term(None, s0, m), _sum([sv.mul(w(ab), sp.frame_term(ab, s0, m)) for ab in sp_ab]))
+        yield self.SUMRULE[1], sv.implies(ins, ident), {"ring_only": True, "rewrites": [(tot.re, _sum([p_.re for p_ in parts])), (tot.im, _sum([p_.im for p_ in parts]))]}
+
+        def D(k):
+            return sv.sub(sp.raw(None, m, t=k), _sum([sv.mul(w(ab), sp.raw(ab, m, t=k)) for ab in sp_ab]))
+        h2 = sv.cmp("==", sp.frame_term(None, kf, m), _sum([sv.mul(w(ab), sp.frame_term(ab, kf, m)) for ab in sp_ab]))
+        yield self.SUMRULE[2], sv.implies(sv.and_(inm, sv.cmp(">=", kf, 0), sv.cmp("<", kf, T), sv.cmp("==", D(kf), 0), h2), sv.cmp("==", D(sv.add(kf, 1)), 0)), \
+            {"solver_opts": {"ext": False}, "abstract_nl": True}
+        name_of = {ab: nm for nm, ab in cols}
+        vS, rawS = pervec[name_of[None]]
+        lhs = sv.mul(N, vS)
+        rhs = _sum([sv.mul(sv.mul(w(ab), sp.norm(ab)), pervec[name_of[ab]][0]) for ab in sp_ab])
+        rw = [(rawS, _sum([sv.mul(w(ab), pervec[name_of[ab]][1]) for ab in sp_ab]))]
+        yield self.SUMRULE[3], sv.implies(inm, sv.cmp("==", lhs, rhs)), {"ring_only": True, "rewrites": rw}
 
     def modes_goals(self, inp, ab, raw):
         """raw (the Σ over frames accumulated by the code, at vector m) == sum_s Re[rho_a conj rho_b], in three small steps:
@@ -1223,13 +1275,16 @@ MANIFEST = {
             "before it, rows below index = the lexicographic enumeration, rows from index on = 0) with loop-init / loop-step obligations from "
             "the real bodies; no store leaves the buffer (|D| <= numofq^d by induction lemmas per axis); lemmas: per-frame "
             "sum-rule identity |sum_a rho_a|^2 = sum_a |rho_a|^2 + 2 sum_{a<b} Re[rho_a conj rho_b] and the induction steps of "
-            "rho = sum_a rho_a and of 'sum of non-negative terms'.",
+            "rho = sum_a rho_a and of 'sum of non-negative terms'; on the real terms of every method: diagonal and total columns of the "
+            "RETURNED table are >= 0 (induction steps over frames and over the vectors of a group, mean of non-negative values), and the sum "
+            "rule N S = sum_a N_a S_aa + 2 sum_{a<b} sqrt(N_a N_b) S_ab holds exactly for the unrounded per-vector values (induction steps "
+            "over particles and frames, ring identities with the code's normalisations).",
     "note": "floats as reals (A1); assumed: pandas frame/round/groupby-mean/to_csv contracts, np.unique (relational), np.linalg.norm, "
             "exp(-ix) = cos x - i sin x, math.modf(sqrt(k))[0] == 0 iff k is a perfect square; the methods take the invariant of "
             "sq.__init__ as precondition with type ids 1..K; choosewavevector: documented range = half-open [-floor(n/2), floor(n/2)) per "
             "axis; assumed: the ghost lexicographic enumeration of the documented set with rank = count of preceding members (d-dimensional "
             "SEL/RANK), the a[mask] selection contract, modf/sqrt as the perfect-square test, induction over an axis for the count bound; "
-            "no bounded stand-in is left; the sum rule is "
-            "proved as lemmas on the spec terms, not chained to the rounded output; the raising behaviour of __init__ for varying "
+            "no bounded stand-in is left; the sum rule is proved for the unrounded per-vector values, on the rounded / averaged table it "
+            "holds only up to the rounding (bound not chained); induction principles trusted; the raising behaviour of __init__ for varying "
             "particle number / box is not under contract",
 }
